@@ -180,8 +180,8 @@ RunClosed(H0, order, root, ng0) ==
       O0 == (root :> order)
   IN [H |-> r.H, ng |-> r.ng, fail |-> FALSE,
       O |-> IF Len(rets) > 1 THEN OrdInsertBlock(O0, H0, root, NewBlock(ng0, "synth_return")[1], rets) ELSE O0]
-LoopsFrom(a, root, rank) == StageO(a, root, "loop", rank, 16)
-BranchesFrom(b, root, rank) == IF b.fail THEN b ELSE StageO(b, root, "branch", rank, 16)
+LoopsFrom(a, root, rank) == StageO(a, root, "loop", rank, 200)
+BranchesFrom(b, root, rank) == IF b.fail THEN b ELSE StageO(b, root, "branch", rank, 200)
 RunLoops(H0, order, root, ng0, rank) == LoopsFrom(RunClosed(H0, order, root, ng0), root, rank)
 RunBranches(H0, order, root, ng0, rank) == BranchesFrom(RunLoops(H0, order, root, ng0, rank), root, rank)
 =============================================================================
